@@ -40,6 +40,31 @@ RINGDB = ['C1CCC/C=C/CCCC1', 'C1CCC/C=C\\CCCC1', 'C/C=C1/CCCOC1', 'C/C=C1\\CCCOC
           'N1CCC/C=C/C=C/CCCC1', 'N1CCC/C=C\\C=C/CCCC1']
 
 
+# stereogenic atoms with four ring bonds (chiral spiro centres): in some write orders they close one ring and open another
+SPIRO = ['O1CC[C@@]2(C1)CCCN2', 'O1CC[C@]2(C1)CCCN2', 'O=C1CC[C@@]2(CCCO2)C1', 'O=C1CC[C@]2(CCCO2)C1', 'C1CO[C@@]2(C1)CCNC2=O', 'C1CO[C@]2(C1)CCNC2=O',
+         '[C@]12(CCCO1)CCCN2', 'C[C@H]1CC[C@@]2(CCCO2)OC1', 'O=C1N[C@@]2(CCCOC2)C(=O)N1C', 'C1CC[C@]2(C1)OC[C@@H](C)O2'.replace('C1CC[C@]2(C1)', 'N1CC[C@]2(C1)'),
+         'C1C[C@@]23CCCN2CCC[C@H]3O1', 'O1CC[C@@]23CCCC[C@H]2NCC3C1']
+
+
+def spiro_like(corp, limit):
+    """corpus molecules with a marked atom that has four ring bonds"""
+    from chython import smiles
+    out = []
+    for smi in corp:
+        if '@' not in smi:
+            continue
+        try:
+            m = smiles(smi)
+        except Exception:
+            continue
+        ar = m.atoms_rings
+        if any(a._stereo is not None and n in ar and sum(1 for x in m._bonds[n] if x in ar and m._bonds[n][x]._in_ring) == 4 for n, a in m._atoms.items()):
+            out.append(smi)
+            if len(out) >= limit:
+                break
+    return out
+
+
 def project_under(m, order, maps=False):
     idx = {n: i + 1 for i, n in enumerate(order)}
     atoms = [{'n': n, 'z': m._atoms[n].atomic_number, 'c': m._atoms[n]._charge, 'i': m._atoms[n]._isotope or 0,
@@ -129,6 +154,7 @@ def run(ck):
     parts = [('corpus', cases_for(sel, ['kekule', 'thiele'], STYLES, ck.seed, norders)),
              ('exotic', cases_for(sorted(set(EXOTIC)), ['asis', 'kekule', 'thiele'], STYLES, ck.seed, 4 if ck.quick else 12)),
              ('ring-double-bonds', cases_for(RINGDB, ['kekule'], ['r', 'ar', 'mr', 'hr', '', 'a'], ck.seed, 10 if ck.quick else 60)),
+             ('spiro-stereo', cases_for(SPIRO + spiro_like(corp, 6 if ck.quick else 60), ['kekule'], ['r', 'ar', 'mr', 'hr'], ck.seed, 20 if ck.quick else 120)),
              ('lossy', cases_for(chy.pick(corp, 100 if ck.quick else 1000, ck.seed, 5), ['kekule'], LOSSY, ck.seed, 1))]
     for name, cases in parts:
         cases = ck.select(name, cases)
